@@ -34,7 +34,11 @@ func RefOf(rt corpus.Runtime, file string) *Ref {
 	if !ok {
 		panic("no corpus file " + file)
 	}
-	fd, err := protodesc.NewFile(corpus.Build(spec, rt), &protoregistry.Files{})
+	files := &protoregistry.Files{}
+	for _, d := range spec.Deps {
+		_ = files.RegisterFile(RefOf(rt, d).File)
+	}
+	fd, err := protodesc.NewFile(corpus.Build(spec, rt), files)
 	if err != nil {
 		panic(fmt.Sprintf("corpus file %s does not validate: %v", k, err))
 	}
